@@ -286,6 +286,18 @@ def main(pid, tier, seed):
                            'train': seen, 'pwcounts': [[k, v] for k, v in sorted(cnts.items())]})
             meta[tid] = {'kind': 'trainer-produced ruleset', 'list': name, 'ngram': ngram, 'alphabet_size': asz,
                          'candidates': len(cl), 'generated_strings_seen': len(where)}
+            # the tables behind the levels: the trainer's n-gram counts are the tallies of the passwords it saw
+            ipc, epc, cpc = [], [], []
+            for k, data in ot.grammar.items():
+                ipc.append([omen.ids_of(k, ids), data['ip_count']])
+                epc.append([omen.ids_of(k, ids), data['ep_count']])
+                for c, lv in data['next_letter'].items():
+                    cpc.append([omen.ids_of(k + c, ids), lv[1]])
+            tid += 1
+            traces.append({'tid': tid, 'kind': 'tables', 'm': model, 'n': ot.ngram, 'maxlen': ot.max_length,
+                           'pws': [omen.ids_of(p, ids) for p in pws], 'alpha': [ids[a] for a in ot.alphabet],
+                           'ipc': ipc, 'epc': epc, 'cpc': cpc, 'lnc': [c for _, c in ot.ln_lookup]})
+            meta[tid] = {'kind': 'trainer n-gram tables', 'list': name, 'ngram': ngram, 'alphabet_size': asz, 'passwords': len(pws)}
 
     verdicts, st = core.validate_traces('TrOmen.tla', traces, chunk=250, timeout=900)
     for t in traces:
